@@ -2,6 +2,7 @@ import SeqVerif.Model.ProxyFracInv
 import SeqVerif.Model.ActiveConcQuiet
 import SeqVerif.Model.C07Cfg
 import SeqVerif.Model.FetchArrange
+import SeqVerif.Model.FileWriter
 /-!
 # C07 - concurrent ingest, search, fetch, sealing and rotation never corrupt readers
 
@@ -372,6 +373,40 @@ theorem c07_fetch_arrange_unguarded_witness :
 
 end FetchArrange
 
+/-! ## group commit: an fsync error is scoped to its batch (`frac.FileWriter`, model of C01: `Model/FileWriter.lean`) -/
+section FsyncScope
+open SV.FWr
+
+/-- **fsync_error_scoped.**  The result delivered when the fsync of a batch ends is the result of THAT fsync: every
+request of the batch gets `ok`, and no other request is touched - in particular a request of a later batch cannot
+inherit the error of an earlier, failed fsync (it is still `waiting`/unfinished after this step and gets its own
+result from its own `syncEnd`).  So one transient fsync failure fails exactly the writers of one batch; ingestion
+goes on. -/
+theorem c07_fsync_error_scoped (st st' : St) (ok : Bool) (batch : List (Nat × Nat)) (sb : Nat)
+    (hsync : st.syncer = .syncing batch sb) (h : step st (.syncEnd ok) = some st') :
+    (∀ w' ∈ st'.ws, w'.off ∈ batch.map (·.1) → w'.pc = .done ok sb st.now) ∧
+    (∀ w ∈ st.ws, w.off ∉ batch.map (·.1) → w ∈ st'.ws) ∧
+    st'.ws.length = st.ws.length := by
+  simp only [step, hsync] at h
+  split at h
+  · cases h
+    refine ⟨?_, ?_, by simp⟩
+    · intro w' hw' hm
+      obtain ⟨w, hw, rfl⟩ := List.mem_map.mp hw'
+      by_cases hb : w.off ∈ batch.map (·.1)
+      · simp [hb]
+      · simp only [hb, if_false] at hm
+    · intro w hw hn
+      exact List.mem_map.mpr ⟨w, hw, by simp [hn]⟩
+  · cases h
+
+/-- a failed fsync followed by a successful one: the second batch's writer returns success (a path of the model) -/
+example : (exec (init 0) [.reserve 0 5, .written 0 true, .enqueue 0 1, .notify 0, .wake, .take 1, .syncBegin,
+    .syncEnd false, .ret 0 false, .reserve 5 3, .written 5 true, .enqueue 5 1, .notify 5, .wake, .take 1, .syncBegin,
+    .syncEnd true, .ret 5 true]).isSome = true := by decide
+
+end FsyncScope
+
 /-! ## Obligations on facts re-extracted from /repo on every run -/
 section Extracted
 open SV.Extracted.C07
@@ -414,6 +449,10 @@ new active fraction, never returned to the client -/
 theorem c07_x_append_retry_loop :
     fmAppendReturns = ["case <-ctx.Done() -> return ctx.Err()",
       "err = fm.Writer().Append(docs, metas); err == nil -> return nil"] := by decide
+
+/-- `FileWriter.syncLoop` declares the error it sends to the waiting writers inside the batch loop, from that batch's
+`Sync()` (the `ok` of the model's `syncEnd`); nothing is carried over from one batch to the next -/
+theorem c07_x_fsync_error_per_batch : syncLoopErrScope = ["in-loop: err := fs.ws.Sync()", "sent: err"] := by decide
 
 /-- ownership at the enqueue boundary: `Active.Append` only QUEUES the metas for the index worker (`wNew` happens after
 `Bulk` returned), so the in-memory client, whose caller reuses its buffer, must hand over a private copy -/
